@@ -1,6 +1,6 @@
 (** C09 — the buffered adapters never exceed their limit and keep it saturated *)
 From FB Require Import Base Syntax World SlotMap Fub Ordered Adapters Step
-  WorldProofs FubProofs UnboundedProofs AdaptersProofs StepProofs Reach SaturationProofs.
+  WorldProofs FubProofs UnboundedProofs AdaptersProofs StepProofs Reach SaturationProofs LedgerProofs TokenLedger UpstreamLedger BackpressureLog.
 
 (** in every reachable state of every history: running <= pulled-but-unyielded <= n *)
 Theorem C09_limit_respected :
@@ -53,3 +53,17 @@ Theorem C09_for_each_pending_is_work_conserving :
   fub_cap (fe_q a') <= fub_len (fe_q a') \/ fe_up a' = None \/ last_up (log w') = Some UAPend.
 Proof. exact fec_pending_is_work_conserving. Qed.
 Print Assumptions C09_for_each_pending_is_work_conserving.
+
+(** "at any instant": over the chronological event log of any history of the four buffered
+    adapters, at every pull of an upstream item the futures pulled before it exceed the futures
+    that have finished before it ([nprodc]: outputs TOut / TErr produced) by less than n - so the
+    number of unfinished futures, which only grows at a pull, never exceeds n, inside polls too *)
+Theorem C09_fewer_than_n_unfinished_at_every_pull :
+  forall (P : params), params_ok P ->
+  forall (ty : ctype) (p : cparams) (inits : list (N * script)) (ups : list upstep) (rest : list op)
+         (pre : list event) (c : N) (post : list event),
+  ad_ctype ty = true ->
+  hist_of P (OBuild ty p inits ups :: rest) = pre ++ EUpPoll (UAItem c) :: post ->
+  npull pre < p_cap p + nprodc pre.
+Proof. exact pulls_only_while_fewer_than_n_unfinished. Qed.
+Print Assumptions C09_fewer_than_n_unfinished_at_every_pull.
